@@ -82,7 +82,7 @@ func (w *W) cellOp(f *frame, key int, g *Term, p *Ptr, wd int, kind string, pos 
 			}
 		}
 	}
-	spec := opSpec{yield: true, sync: true, enabled: en, pos: pos, kind: kind, syncCell: true, write: !isLoad}
+	spec := opSpec{yield: true, sync: true, enabled: en, pos: pos, kind: kind, syncCell: true, write: !isLoad, label: w.curLabel}
 	switch kind {
 	case "Unlock", "RUnlock":
 		// a release commutes to the left of anything another goroutine can do while the lock is held:
@@ -301,6 +301,14 @@ func (w *W) intrinsic(f *frame, fn *ssa.Function, args []Value, key int, g *Term
 	}()
 	ptr := func(i int) *Ptr { return args[i].(*Ptr) }
 	term := func(i int) *Term { return args[i].(*Term) }
+	w.curLabel = ""
+	if c != nil && len(c.Args) > 0 {
+		if fa, ok := c.Args[0].(*ssa.FieldAddr); ok {
+			if st, ok := fa.X.Type().Underlying().(*types.Pointer).Elem().Underlying().(*types.Struct); ok {
+				w.curLabel = st.Field(fa.Field).Name()
+			}
+		}
+	}
 	switch name {
 	// ---- atomics
 	case "(*sync/atomic.Uint32).Load", "(*sync/atomic.Int32).Load":
